@@ -7,6 +7,7 @@ import (
 	"os"
 	"os/exec"
 	"path/filepath"
+	"sync/atomic"
 	"time"
 
 	"github.com/VolantMQ/vlapi/mqttp"
@@ -26,7 +27,12 @@ type c03Op struct {
 	Exp int    `json:"exp,omitempty"` // 0 none, 1 = expiry interval 1 s (always elapsed when checked), 100
 	K   int    `json:"k,omitempty"`
 	Err bool   `json:"err,omitempty"`
-	RM  int    `json:"rm,omitempty"`
+	// Twice: the acknowledgement is sent a second time (v5 PUBREC with an error code / PUBACK / PUBCOMP: nothing is
+	// outstanding under that identifier any more, it must free nothing); Bogus: a refusing PUBREC for an identifier
+	// that was never in flight
+	Twice bool `json:"twice,omitempty"`
+	Bogus bool `json:"bogus,omitempty"`
+	RM    int  `json:"rm,omitempty"`
 	// LowRM: keep a reconnect Receive Maximum below the number of unacknowledged packets
 	// (the region of known finding C03-reconnect-lower-rm); generated cases never set it
 	LowRM bool `json:"lowrm,omitempty"`
@@ -187,8 +193,10 @@ func (p *c03Prop) Gen(r *Rng, i int, tier string) interface{} {
 			}
 			c.Ops = append(c.Ops, op)
 		case x < 85:
-			if online {
-				c.Ops = append(c.Ops, c03Op{Op: "ack", K: r.Intn(4), Err: c.V5 && r.Chance(10)})
+			if !online && p.id == "C02" && r.Chance(20) {
+				c.Ops = append(c.Ops, c03Op{Op: "restart"})
+			} else if online {
+				c.Ops = append(c.Ops, c03Op{Op: "ack", K: r.Intn(4), Err: c.V5 && r.Chance(10), Twice: r.Chance(12), Bogus: c.V5 && r.Chance(4)})
 			} else {
 				c.Ops = append(c.Ops, c03Op{Op: "send", QoS: 1 + r.Intn(2)})
 			}
@@ -377,6 +385,15 @@ func (p *c03Prop) runLong(c *c03Case) *c03Obs {
 	return obs
 }
 
+func mkAckLike(ver mqttp.ProtocolVersion, a *mqttp.Ack) *mqttp.Ack {
+	id, _ := a.ID()
+	b := mkAck(ver, a.Type(), uint16(id))
+	if ver == mqttp.ProtocolV50 && a.Reason() != 0 {
+		b.SetReason(a.Reason())
+	}
+	return b
+}
+
 func tailInts(l []int, k int) []int {
 	if len(l) > k {
 		return l[len(l)-k:]
@@ -412,7 +429,7 @@ func (p *c03Prop) Run(ci interface{}) interface{} {
 		obs.Err = err.Error()
 		return obs
 	}
-	defer b.Drop()
+	defer func() { b.Drop() }()
 	if gate != nil {
 		defer gate.Release()
 	}
@@ -578,6 +595,14 @@ func (p *c03Prop) Run(ci interface{}) interface{} {
 				obs.Err = fmt.Sprintf("step %d: routing barrier timed out", k)
 			}
 		case "ack":
+			if online && op.Bogus && c.V5 {
+				id := 60000 + k
+				a := mkAck(ver, mqttp.PUBREC, uint16(id))
+				a.SetReason(mqttp.CodeUnspecifiedError)
+				st.Ev = fmt.Sprintf("(EAck true (APubrec %d true))", id)
+				_ = s.SendL(a)
+				break
+			}
 			if !online || len(outstanding) == 0 {
 				continue
 			}
@@ -599,6 +624,87 @@ func (p *c03Prop) Run(ci interface{}) interface{} {
 			}
 			outstanding = append(outstanding[:i], outstanding[i+1:]...)
 			_ = s.SendL(a)
+			if op.Twice && (o.kind != mqttp.PUBREC || errFlag) {
+				// the same acknowledgement again, as an event of its own (nothing is outstanding under the identifier)
+				if !writerBarrier() {
+					obs.Err = fmt.Sprintf("step %d: writer barrier timed out", k)
+					break
+				}
+				logFrom()
+				for _, r := range log[before:] {
+					st.Wire = append(st.Wire, r.w)
+					switch r.w.K {
+					case 2:
+						addOut(&outstanding, c03Out{r.w.ID, mqttp.PUBACK})
+					case 3:
+						addOut(&outstanding, c03Out{r.w.ID, mqttp.PUBREC})
+					case 0:
+						addOut(&outstanding, c03Out{r.w.ID, mqttp.PUBCOMP})
+					}
+				}
+				obs.Steps = append(obs.Steps, st)
+				before = len(log)
+				reused := false
+				for _, x := range outstanding {
+					if x.id == o.id {
+						reused = true // the identifier has been handed to a new message meanwhile: a late duplicate would acknowledge THAT
+					}
+				}
+				if reused {
+					continue
+				}
+				st = c03Step{Ev: st.Ev, Wire: []c03Wire{}}
+				_ = s.SendL(mkAckLike(ver, a))
+			}
+		case "restart":
+			// the broker is shut down and started again on the same persistence while S is away: to the session's
+			// writer nothing has happened (what is pending is in persistence), so no event for the model
+			if online || gate != nil {
+				continue
+			}
+			pers := b.Persist
+			stopped := make(chan struct{})
+			go func() {
+				atomic.StoreInt32(&b.mgrDown, 1)
+				_ = b.Mgr.Stop()
+				_ = b.Mgr.Shutdown()
+				b.ShutdownTopics()
+				close(stopped)
+			}()
+			select {
+			case <-stopped:
+			case <-time.After(10 * time.Second):
+				obs.Err = fmt.Sprintf("step %d: shutdown did not return", k)
+			}
+			if obs.Err != "" {
+				break
+			}
+			b.Drop2()
+			nb, err := NewBroker(BrokerOpts{Persist: pers})
+			if err != nil {
+				obs.Err = fmt.Sprintf("step %d: restart: %v", k, err)
+				break
+			}
+			b = nb
+			wc = b.Dial()
+			if _, err := wc.Connect(ConnectOpts{ID: "W", Ver: mqttp.ProtocolV311, Clean: true}); err != nil {
+				obs.Err = "W: " + err.Error()
+				break
+			}
+			w = wc.Auto(false)
+			wSeen = 0
+			_ = w.SendL(mkSubscribe(mqttp.ProtocolV311, 1, []string{"w"}, []byte{0}))
+			if !w.WaitFor(5*time.Second, func() bool { return len(w.Others) >= 1 }) {
+				obs.Err = "W: no suback"
+				break
+			}
+			pc = b.Dial()
+			if _, err := pc.Connect(ConnectOpts{ID: "P", Ver: mqttp.ProtocolV50, Clean: true}); err != nil {
+				obs.Err = "P: " + err.Error()
+				break
+			}
+			pa = pc.Auto(false)
+			continue
 		case "close":
 			if !online {
 				continue
